@@ -103,11 +103,22 @@ def run_prog(m, args, core, K):
 
     I.handlers.update(mc.effect_handlers(rec))
 
+    funcs = {g.sym_name.data: g for g in irsym.module_funcs(m)}
+
     def h_call(I, op):
-        if op.callee.root_reference.data == "snax_cluster_core_idx":
+        nm = op.callee.root_reference.data
+        if nm == "snax_cluster_core_idx":
             I.set(op.results[0], core)
+        elif nm in funcs and funcs[nm].body.blocks:
+            # a function specialised by function-constant-pinning: execute it in place
+            callee = funcs[nm]
+            saved = dict(I.env)
+            r = I.run_func(callee, [I.get(o) for o in op.operands])
+            I.env.update(saved)
+            for res, v in zip(op.results, r or []):
+                I.set(res, v)
         else:
-            ev.append((op.callee.root_reference.data, "all"))
+            ev.append((nm, "all"))
 
     I.handlers["func.call"] = h_call
     f = [g for g in irsym.module_funcs(m) if g.sym_name.data == "f"][0]
@@ -152,6 +163,19 @@ def case_prog(case, K=2):
             m2.verify()
         except Exception as e:
             E.oblige("dispatch:verifies", False, dict(error=str(e)[:200]))
+        # pinning the core id to constants (upstream xdsl pass driven by the pin_to_constants annotation the dispatcher
+        # emits) must specialise the function without changing what a core executes
+        if second is None:
+            m3 = m2.clone()
+            try:
+                xshim.apply_passes(m3, "function-constant-pinning", main)
+            except Exception as e:
+                E.oblige("pinning:applies", False, dict(error=str(e)[:200]))
+                return
+            t3 = run_prog(m3, args, core, K)
+            E.oblige("pinning:trace_equals_filtered_original", z3.BoolVal([t for t, _ in want] == [t for t, _ in t3]),
+                     dict(core=("dm" if is_dm else "compute" if is_cp else "other"), expected=[t for t, _ in want][:30], got=[t for t, _ in t3][:30], nb_cores=N,
+                          specialised=sum(1 for g in irsym.module_funcs(m3)) - 1))
 
     def replay(f):
         ok, d = replay_pinned(fn, f)
@@ -182,7 +206,7 @@ def run(chk):
         "order preserved. The solver's work is small (three classes of core id, control-flow paths); the value is in executing the real "
         "pass output on all paths.")
     chk.assumptions = ["classification oracle: memref.copy and regions on snax_xdma are data movement; linalg.generic and regions on other accelerators are compute",
-                       "loops unrolled to K=2; xDSL's function-constant-pinning is upstream code and not claimed"]
+                       "loops unrolled to K=2; function-constant-pinning (upstream xDSL, driven by the pin_to_constants annotation of the dispatcher) is applied to single-block programs and checked with the same oracle"]
     cases = []
     n = 220 if quick else 2500
     for k in range(n):
@@ -192,4 +216,4 @@ def run(chk):
         cases.append((prog, second, rnd.choice((2, 2, 3, 4, 8))))
     chk.add_results("dispatch_vs_filtered_original", pmap(case_prog, cases, chunks=4))
     chk.bounds = dict(programs=len(cases), nb_cores=[2, 3, 4, 8], nesting="<=2", unroll_K=2)
-    chk.outside = ["function-constant-pinning (upstream)", "ops other than the listed kinds"]
+    chk.outside = ["function-constant-pinning on multi-block functions", "ops other than the listed kinds"]
